@@ -177,11 +177,14 @@ func (reg *Registry) saveLastSuccessfulMigration(db *database.Interface, ver *ve
 }
 
 func (reg *Registry) getExecutionPlan(startOfMigration *version.Version) ([]Migration, *Diagnostics, error) {
-	// create a look-up map for migrations indexed by their semver created a
-	// list of version (sorted by increasing number) that we use as our execution
-	// plan.
-	lm := make(map[string]Migration)
-	versions := make(version.Collection, 0, len(reg.migrations))
+	// pair every migration with its parsed version and sort them by increasing
+	// version number to get our execution plan. The sort is stable: migrations
+	// that share a version are all executed, in the order they were added.
+	type versionedMigration struct {
+		ver *version.Version
+		m   Migration
+	}
+	versions := make([]versionedMigration, 0, len(reg.migrations))
 	for _, m := range reg.migrations {
 		ver, err := version.NewSemver(m.Version)
 		if err != nil {
@@ -191,10 +194,11 @@ func (reg *Registry) getExecutionPlan(startOfMigration *version.Version) ([]Migr
 				FailedMigration: m.Description,
 			}
 		}
-		lm[ver.String()] = m // use .String() for a normalized string representation
-		versions = append(versions, ver)
+		versions = append(versions, versionedMigration{ver: ver, m: m})
 	}
-	sort.Sort(versions)
+	sort.SliceStable(versions, func(i, j int) bool {
+		return versions[i].ver.LessThan(versions[j].ver)
+	})
 
 	diag := new(Diagnostics)
 	if startOfMigration != nil {
@@ -203,12 +207,12 @@ func (reg *Registry) getExecutionPlan(startOfMigration *version.Version) ([]Migr
 
 	// prepare our diagnostics and the execution plan
 	execPlan := make([]Migration, 0, len(versions))
-	for _, ver := range versions {
+	for _, vm := range versions {
+		ver, m := vm.ver, vm.m
 		// skip an migration that has already been applied.
 		if startOfMigration != nil && startOfMigration.GreaterThanOrEqual(ver) {
 			continue
 		}
-		m := lm[ver.String()]
 		diag.ExecutionPlan = append(diag.ExecutionPlan, DiagnosticStep{
 			Description: m.Description,
 			Version:     ver.String(),
